@@ -8,7 +8,11 @@
 //!   execute(&Value) -> String                    runs the implementation, returns a Gallina case
 //! With `--inputs FILE` (JSON lines) the generator is skipped: replay / corpus.
 mod c15;
+mod dump;
 mod gal;
+mod gen;
+mod lib_stage;
+mod libgen;
 mod rng;
 
 use serde_json::{json, Value};
@@ -29,6 +33,7 @@ pub struct PropModule {
 fn module(prop: &str) -> PropModule {
     match prop {
         "C15" => c15::module(),
+        "LIB" => PropModule { coq_module: "Check_Lib", runner: "Check_Lib.run_corr", generate: |r, t| libgen::generate_mixed(r, t, 200), execute: lib_stage::execute, label: libgen::label },
         _ => {
             eprintln!("unknown property {}", prop);
             std::process::exit(2);
